@@ -571,7 +571,11 @@ def check_case(runner, text):
         out, note = runner.run_variant(exe, text, san)
         if note:
             probs.append(("abort", "%s: %s" % (name, note)))
-        probs += evaluate(runner, text, out, name)
+        try:
+            probs += evaluate(runner, text, out, name)
+        except (KeyError, ValueError, IndexError) as e:
+            # an observation line that does not parse: output cut short by a crash, or memory corrupted in the unsanitized run
+            probs.append(("proto", "%s: unparseable observation (%r)" % (name, e)))
         if san:
             stats["pointers"] = out.count("\nP ")
             stats["temps"] = out.count("\nT ")
@@ -654,7 +658,7 @@ def run_layout_part(ctx, runner):
         if stats["pointers"] >= 6 and stats["layouts"] >= 1:
             nontrivial.add(hash(text))
         pf = [p for p in probs if is_property(p[0])]
-        if pf and name.startswith("corpus:") and "zero_size" in name and avoid_allzero:
+        if pf and name.startswith("corpus:") and "zero_size_archetype" in name and avoid_allzero:
             if ctx.known("zero_size_archetype", "an archetype made only of zero-size components has no chunk: lookups index an empty chunk table (%s)" % pf[0][1][:200]):
                 known_hits += 1
                 continue
